@@ -578,7 +578,11 @@ def compute_mro(cls:'Class') -> Sequence[Union['Class', str]]:
                     finalbases.append(base.fullName())
                 else:
                     # Only re-resolve the base object if the base was None.
-                    resolved_base = o.parent.resolveName(str_base)
+                    # The name is looked up as it was bound when the class statement was visited,
+                    # what it means at the end of the scope only matters when that leads nowhere.
+                    resolved_base = o.system.objForFullName(o._initialbases[i])
+                    if not isinstance(resolved_base, Class):
+                        resolved_base = o.parent.resolveName(str_base)
                     if isinstance(resolved_base, Class):
                         base = resolved_base
                         finalbaseobjects.append(base)
